@@ -166,11 +166,30 @@ def compute_recession_curve(
             -et_mm_d - curvature_km * transmissivity_m2_d(zeta_mm)
         )
 
+    # The integrand has a kink at each knot of the specific yield and
+    # transmissivity parameterizations; pass the knots inside each grid
+    # cell to quad as break points
+    knots = np.unique(
+        np.concatenate(
+            [
+                np.asarray(
+                    getattr(function, 'zeta_knots_mm', []), dtype=float
+                ).ravel()
+                for function in (specific_yield, transmissivity_m2_d)
+            ]
+        )
+    )
     i = 1
     for zeta_mm in zeta_grid_mm[1:]:
-        dt_d[i] = integrate_mod.quad(f, zeta_grid_mm[i - 1], zeta_grid_mm[i])[
-            0
-        ]
+        lo, hi = sorted((zeta_grid_mm[i - 1], zeta_grid_mm[i]))
+        points = knots[(knots > lo) & (knots < hi)]
+        dt_d[i] = integrate_mod.quad(
+            f,
+            zeta_grid_mm[i - 1],
+            zeta_grid_mm[i],
+            points=points if len(points) else None,
+            limit=max(50, 2 * len(points) + 2),
+        )[0]
         i += 1
     elapsed_time_d = np.cumsum(dt_d)
     elapsed_time_d += mean_elapsed_time_d - elapsed_time_d.mean()
